@@ -8,6 +8,7 @@ package c05
 
 import (
 	"bytes"
+	"encoding/json"
 	"fmt"
 	"strings"
 
@@ -31,7 +32,8 @@ func init() {
 			"extra boxes: emsg v0/v1 via AddEmsg, prft/free/skip/uuid/unknown inserted before moof, boxes via AddChild after mdat, file-level boxes between fragments, " +
 			"large-size mdat header, trun fields dropped in favour of trex defaults (only without optimisation); EncOptimize on/off, Encode/EncodeSW, " +
 			"fragment-wise or MediaSegment encode, +-styp, +-sidx (top-level and per-segment, filled with true offsets). idx%8 selects an emphasis " +
-			"(5: single-track fragments only, 6: no extra boxes, 7: tame realistic values). " +
+			"(5: single-track fragments only, 6: no extra boxes, 7: tame realistic values); idx%64 == 9: long runs (1 or 2 fragments of 1023..3000 samples per track of 8..24 bytes, " +
+			"two thirds of the tracks with every field constant so that the optimised trun carries no per-sample field). " +
 			"Every payload is stamped with (track, ordinal). Non-trivial = the file holds >= 2 samples and at least one of {a traf with >1 trun, a multi-track fragment, " +
 			"optimisation on, an extra box}; distinct_nontrivial counts distinct encoded files.",
 		Assumptions: []string{
@@ -49,6 +51,7 @@ func init() {
 			return 30000
 		},
 		Run:        run,
+		Replay:     replay,
 		CaseCPUSec: 60,
 	})
 }
@@ -122,6 +125,37 @@ func errClass(err error) string {
 	return strings.TrimSpace(s)
 }
 
+// innerErrClass is the innermost message of a wrapped decode error ("decode
+// moof pos 24: decode traf pos 48: <inner>") with every number replaced by #.
+func innerErrClass(err error) string {
+	s := err.Error()
+	for {
+		i := strings.Index(s, ": ")
+		if i < 0 || !strings.HasPrefix(s, "decode ") || !strings.Contains(s[:i], " pos ") {
+			break
+		}
+		s = s[i+2:]
+	}
+	var sb strings.Builder
+	digit := false
+	for _, r := range s {
+		if r >= '0' && r <= '9' {
+			if !digit {
+				sb.WriteByte('#')
+			}
+			digit = true
+			continue
+		}
+		digit = false
+		sb.WriteRune(r)
+	}
+	s = sb.String()
+	if len(s) > 80 {
+		s = s[:80]
+	}
+	return s
+}
+
 type detail struct {
 	History  *genfrag.History `json:"history"`
 	Fragment int              `json:"fragment_in_file"`
@@ -141,12 +175,27 @@ func options(idx int) genfrag.Options {
 	case 7:
 		o.Tame = true
 	}
+	if idx%64 == 9 {
+		o = genfrag.Options{LongRuns: true, NoExtra: idx%128 == 9}
+	}
 	return o
 }
 
 func run(c *runner.Ctx, idx int) {
 	h := genfrag.Generate(c.Rand, options(idx))
 	check(c, h)
+}
+
+// replay re-runs the history saved in a violation's detail.
+func replay(c *runner.Ctx, raw json.RawMessage) {
+	var d struct {
+		History *genfrag.History `json:"history"`
+	}
+	if err := json.Unmarshal(raw, &d); err != nil || d.History == nil {
+		c.Inconclusive("replay-without-history")
+		return
+	}
+	check(c, d.History)
 }
 
 func check(c *runner.Ctx, h *genfrag.History) {
@@ -303,7 +352,7 @@ func check(c *runner.Ctx, h *genfrag.History) {
 			continue
 		}
 		if derr != nil {
-			viol(reader, "decode-error", -1, nil, 0, "decoding the encoded file fails: "+derr.Error())
+			viol(reader, "decode-error/"+innerErrClass(derr), -1, nil, 0, "decoding the encoded file fails: "+derr.Error())
 			continue
 		}
 		if file.Init == nil || file.Init.Moov == nil || file.Init.Moov.Mvex == nil {
